@@ -25,6 +25,8 @@ var runners = map[string]func(tags string, a []Val){
 	"ke.records": runKeRecords, "ke.stream": runKeStream,
 
 	"ck.enc": runCkEnc, "ck.dec": runCkDec, "ck.crypt": runCkCrypt,
+
+	"nts.enc": runNtsEnc, "nts.dec": runNtsDec,
 }
 
 func main() {
@@ -48,4 +50,5 @@ func main() {
 	genCsptp(r.Fork(), thorough)
 	genNtske(r.Fork(), thorough)
 	genCookies(r.Fork(), thorough)
+	genNts(r.Fork(), thorough)
 }
